@@ -67,6 +67,7 @@ struct BudgetTrip(u64, &'static str);
 
 thread_local! {
     static TICKS: Cell<u64> = const { Cell::new(0) };
+    static ALL_TICKS: Cell<u64> = const { Cell::new(0) };
     static TICK_BUDGET: Cell<u64> = const { Cell::new(0) };
     static PREEMPT_AT: Cell<u64> = const { Cell::new(u64::MAX) };
     static PREEMPTED: Cell<u32> = const { Cell::new(0) };
@@ -97,15 +98,26 @@ unsafe impl std::alloc::GlobalAlloc for CountingAlloc {
 /// The callback a guarded `tick` hook in the library under test calls from inside its
 /// loops.  Counts work, trips the budget, and yields the baton at the chosen tick.
 pub fn on_tick(site: &'static str) {
-    let t = TICKS.with(|c| {
+    // "phase:" sites mark boundaries between the phases of a call: they are preemption points
+    // but not units of input-proportional work
+    let phase = site.starts_with("phase:");
+    let at = ALL_TICKS.with(|c| {
         let v = c.get() + 1;
         c.set(v);
         v
     });
-    let b = TICK_BUDGET.with(|c| c.get());
-    if b != 0 && t > b {
-        std::panic::panic_any(BudgetTrip(t, site));
+    if !phase {
+        let t = TICKS.with(|c| {
+            let v = c.get() + 1;
+            c.set(v);
+            v
+        });
+        let b = TICK_BUDGET.with(|c| c.get());
+        if b != 0 && t > b {
+            std::panic::panic_any(BudgetTrip(t, site));
+        }
     }
+    let t = at;
     if PREEMPT_AT.with(|c| c.get()) == t {
         YIELD.with(|y| {
             if let Some((tx, rx)) = y.borrow().as_ref() {
@@ -160,6 +172,7 @@ fn node_main(seed: [u64; 4], cmd_rx: Receiver<Cmd>, reply_tx: Sender<Reply>, res
             Cmd::Exit => break,
             Cmd::Run(job, opts) => {
                 TICKS.with(|c| c.set(0));
+                ALL_TICKS.with(|c| c.set(0));
                 TICK_BUDGET.with(|c| c.set(opts.tick_budget));
                 PREEMPT_AT.with(|c| c.set(opts.preempt_at.unwrap_or(u64::MAX)));
                 PREEMPTED.with(|c| c.set(0));
@@ -438,7 +451,7 @@ impl Cx {
                 if opts.preempt_at.is_none() && self.preemptions_left > 0 && self.nodes.len() > 1 {
                     // PCT-style: a small number of preemption points per run
                     if self.ch.chance("preempt?", 1, 4) {
-                        let at = 1 + self.ch.choose("preempt_at", 24);
+                        let at = 1 + self.ch.choose("preempt_at", 48);
                         opts.preempt_at = Some(at);
                     }
                 }
